@@ -114,7 +114,10 @@ def _get_db(dbfile, name, target_version):
             raise DBError("Unable to upgrade %s to version %s, left at %s"
                           % (dbfile, version+1, version))
         log.msg(" executing upgrader v%s->v%s" % (version, version+1))
-        db.executescript(upgrader)
+        # executescript() runs each statement in autocommit mode: wrap the
+        # upgrader in a transaction, so an interruption leaves the old
+        # version intact and the next start retries from the beginning
+        db.executescript("BEGIN;\n" + upgrader + "\nCOMMIT;")
         db.commit()
         version = version+1
 
